@@ -9,8 +9,9 @@ HARNESSES = [("http/tokenV2", ["http/tokenV2/zz_verif_c17_test.go", "http/tokenV
              ("auth/api/iam", ["auth/api/iam/zz_verif_c17_test.go", "http/tokenV2/zz_verif_export.go"], "c17jar"),
              ("vcr/verifier", ["vcr/verifier/zz_verif_c17_test.go", "http/tokenV2/zz_verif_export.go"], "c17vc"),
              ("auth/services/oauth", ["auth/services/oauth/zz_verif_c17_test.go", "http/tokenV2/zz_verif_export.go"], "c17az"),
-             ("vcr/signature/proof", ["vcr/signature/proof/zz_verif_c17_test.go"], "c17ld")]
-TESTS = {"c17": "TestVerifC17", "c17jar": "TestVerifC17Jar", "c17vc": "TestVerifC17VcJwt", "c17az": "TestVerifC17AuthzV1", "c17ld": "TestVerifC17LdProof"}
+             ("vcr/signature/proof", ["vcr/signature/proof/zz_verif_c17_test.go"], "c17ld"),
+             ("network/dag", ["network/dag/zz_verif_c17_test.go"], "c17dag")]
+TESTS = {"c17": "TestVerifC17", "c17jar": "TestVerifC17Jar", "c17vc": "TestVerifC17VcJwt", "c17az": "TestVerifC17AuthzV1", "c17ld": "TestVerifC17LdProof", "c17dag": "TestVerifC17Dag"}
 PKG, HARNESS = HARNESSES[0][0], HARNESSES[0][1]
 
 # classes of the generator for which NOTHING made a valid signature over the exact bytes, whatever the consumer
@@ -54,15 +55,77 @@ def verdict(c, cls, halg, by, res, allowed, env=None):
     return None
 
 
+GO_SPACE = set([9, 10, 11, 12, 13, 32, 0x85, 0xA0, 0x1680, 0x2028, 0x2029, 0x202F, 0x205F, 0x3000] + list(range(0x2000, 0x200B)))
+B64URL = set(b"ABCDEFGHIJKLMNOPQRSTUVWXYZabcdefghijklmnopqrstuvwxyz0123456789-_")
+
+
+def py_canonical(seg):
+    """independent statement of 'the one spelling': alphabet only, no lone character, unused trailing bits zero"""
+    import base64
+    if any(ch not in B64URL for ch in seg) or len(seg) % 4 == 1:
+        return False
+    dec = base64.urlsafe_b64decode(seg + b"=" * (-len(seg) % 4))
+    return base64.urlsafe_b64encode(dec).rstrip(b"=") == seg
+
+
+def py_json_lead(b):
+    """first rune after Go's unicode.IsSpace runes is `{` (invalid UTF-8 is no space)"""
+    i = 0
+    while i < len(b):
+        for n in (1, 2, 3):
+            try:
+                ch = b[i:i + n].decode("utf-8")
+            except UnicodeDecodeError:
+                continue
+            if len(ch) == 1 and ord(ch) in GO_SPACE:
+                i += n
+                break
+            return n == 1 and ch == "{"
+        else:
+            return False
+    return False
+
+
+def bytes_oracle(op, line, derived):
+    """direct oracles of the byte-level legs, on the implementation's own outputs; None or (kind, reason)"""
+    o = op["op"]
+    if o == "sigalg":
+        want = {"P-256": "ES256", "P-384": "ES384", "P-521": "ES512"}
+        if line not in derived + ["error"] or line in ("none", "", "HS256", "HS384", "HS512"):
+            return ("derived-alg-not-listed", f"SignatureAlgorithm({op['name']}) = {line!r}")
+        if op.get("kind") == "ecdsa" and op.get("curve") in want and line != want[op["curve"]]:
+            return ("derived-alg-curve", f"SignatureAlgorithm of a {op['curve']} key is {line!r}, RFC 7518 says {want[op['curve']]}")
+        if op.get("kind") in ("nil", "other") and line != "error":
+            return ("derived-alg-for-no-key", f"SignatureAlgorithm({op['name']}) = {line!r}")
+        if op.get("kind") == "rsa" and not line.startswith("PS") or op.get("kind") == "ed25519" and line != "EdDSA":
+            return ("derived-alg-family", f"SignatureAlgorithm({op['name']}) = {line!r}")
+        return None
+    b = bytes.fromhex(op.get("hex", ""))
+    if o == "b64" and line.endswith("canonical=true") and not py_canonical(b):
+        return ("segment-second-spelling", f"segment {b!r} passes decode + re-encode-and-compare but is not the canonical spelling")
+    compact_ok = b.count(b".") == 2 and all(py_canonical(x) for x in b.split(b"."))
+    if o == "framing" and line == "true" and not py_json_lead(b) and not compact_ok:
+        return ("non-canonical-bytes", f"isJWSSerialization({b[:80]!r}) = true: neither a JSON object nor three canonical base64url segments")
+    if o == "framingtx" and line == "pass" and not py_json_lead(b) and not compact_ok:
+        return ("non-canonical-bytes", f"ParseTransaction let {op['name']} through its framing test although the bytes are not the canonical compact "
+                "serialisation (padding / CR / LF / other alphabet / trailing bits / extra segment): the same signed transaction gets a second reference")
+    if o == "framingtx" and op.get("accepted") and op.get("same_content") and not op.get("identical") and not py_json_lead(b):
+        return ("non-canonical-bytes", f"ParseTransaction ACCEPTED {op['name']}: a re-encoding of a signed transaction, other bytes hence another reference")
+    return None
+
+
 def run(ctx):
     facts = ctx.facts() or {}
-    thms = ctx.build_and_audit(["NutsProofs.Props.C17"])
+    thms = ctx.build_and_audit(["NutsProofs.Props.C17", "NutsProofs.Props.C17Framing"])
     required = ["allowed_lists_asymmetric", "accept_parseJWT", "accept_parseJWS", "accept_dpop", "accept_dagTx", "accept_dagTx_partial", "accept_dagTx_of_fact",
                 "fact_dag_rejects_private_jwk", "fact_dag_framing_body", "fact_dag_kid_xor_jwk", "fact_alg_fits_key", "fits_is_the_algorithm_of_the_curve", "fact_verifiers_hold_no_key_state", "key_is_current_resolution",
                 "accept_apiToken", "accept_jar", "accept_vcJwt", "accept_vcJsonLd", "fact_vcJsonLd", "fact_wiring", "accept_authzV1", "accept_ldProof", "fact_authzV1",
                 "authzV1_without_kid_check_accepts_foreign_key", "header_keys_ignored", "apiToken_key_header_rejected",
                 "parseJWS_splitCompact_mode_accepts_two_uncovered", "dagTx_without_private_check_accepts_private_jwk",
                 "apiToken_atLeastOne_rule_accepts_two_signatures",
+                "fact_dag_framing_consts", "fact_alphabet", "fact_signatureAlgorithm", "rawurl_roundtrip", "encode_is_canonical", "canonical_segment_unique",
+                "canonical_segment_alphabet", "compact_shape", "compact_reference_unique", "compact_reference_unique_ref", "canonical_compact_passes",
+                "parseTxFraming_pass", "accept_dagTx_bytes", "accepted_dagTx_one_reference", "derived_alg_listed", "derived_alg_fits_nist", "accept_ldProof_derived",
                 "fact_parseJWT", "fact_parseJWS", "fact_dpopParse", "fact_dagTx", "fact_apiToken", "fact_jar_ldproof"]
     for r in required:
         if not any(t.endswith("Props." + r) for t in thms):
@@ -105,7 +168,7 @@ def run(ctx):
     replay_c = None
     if ctx.replay:
         txt = open(ctx.replay).read()
-        replay_c = ("c17jar" if '"jar"' in txt else "c17vc" if ('"vcjwt"' in txt or '"vcld"' in txt) else
+        replay_c = ("c17dag" if ('"hex"' in txt or '"sigalg"' in txt) else "c17jar" if '"jar"' in txt else "c17vc" if ('"vcjwt"' in txt or '"vcld"' in txt) else
                     "c17az" if ('"authzv1"' in txt or '"introspect"' in txt) else "c17ld" if '"ldproof"' in txt else "c17")
     for (pkg, files, name) in HARNESSES:
         if replay_c and replay_c != name:
@@ -136,6 +199,19 @@ def run(ctx):
             if i >= len(ops) or not ops[i]:
                 continue
             op = json.loads(ops[i])
+            if op.get("op") in ("b64", "framing", "framingtx", "sigalg"):
+                table.setdefault(op["op"], Counter())[line.split(":")[0] if op["op"] == "b64" else line] += 1
+                distinct.add((op["op"], op["name"].split("-", 1)[-1]))
+                if op["op"] == "framingtx" and op.get("accepted"):
+                    accepted_valid["framingtx-json" if py_json_lead(bytes.fromhex(op["hex"])) else "framingtx"] += 1
+                v = bytes_oracle(op, line, facts.get("keyDerivedAlgs", []))
+                if v:
+                    o_bad += 1
+                    sig = f"C17:{'dagtx' if op['op'].startswith('framing') else op['op']}:{v[0]}"
+                    if sig not in seen_sig:
+                        seen_sig[sig] = 1 if ctx.violation(sig, f"{op['op']} '{op['name']}': {v[1]}", f"{op['op']}-{v[0]}.jsonl", ops[i]) else 0
+                    o_unsuppressed += seen_sig[sig]
+                continue
             if op.get("op") == "algfits":
                 # direct oracle on the helper: a NIST-curve key fits exactly the algorithm of its curve (RFC 7518 3.4)
                 want = {"P-256": "ES256", "P-384": "ES384", "P-521": "ES512"}.get(op["shape"].get("curve"))
@@ -186,13 +262,15 @@ def run(ctx):
             if o_bad == 0 and i < len(ops):
                 op = json.loads(ops[i])
                 with open(os.path.join(ctx.replay_dir(), f"correspondence-{name}.jsonl"), "w") as f:
-                    f.write(json.dumps({"c": op["c"], "name": op["name"], "class": op["class"]}) + "\n")
+                    f.write((ops[i] if "c" not in op else json.dumps({"c": op["c"], "name": op["name"], "class": op["class"]})) + "\n")
                 ctx.unproved([f"correspondence C17/{name} (model.out != impl.out)"], detail + f"\nreplay: {ctx.replay_dir()}/correspondence-{name}.jsonl")
         else:
             ctx.oblige(f"correspondence:{name}:model=impl", True, f"{len(impl)} lines equal")
     if not ctx.replay:
         for c in ("parsejwt", "parsejws", "dpop", "dagtx", "apitoken", "jar", "vcjwt", "authzv1", "introspect", "ldproof", "vcld"):
             ctx.oblige(f"non-vacuous:{c}-accepts-its-valid-token(impl)", accepted_valid[c] > 0, str(dict(accepted_valid)))
+        ctx.oblige("non-vacuous:framingtx-accepts-the-canonical-compact-transaction(impl)", accepted_valid["framingtx"] > 0, str(dict(accepted_valid)))
+        ctx.cov["json_serialisations_of_a_signed_transaction_accepted"] = accepted_valid["framingtx-json"]
 
     ctx.cov["evaluations"] = total
     ctx.cov["distinct_nontrivial"] = len(distinct)
